@@ -7,6 +7,7 @@
 From Coq Require Import String.
 From PS Require Import Base.Bytes Base.Result Model.Converter Model.Command Model.Ctor Model.InitCdb.
 From PS Require Import Proofs.CtorSound Gen.Tables Gen.Ctors Gen.Footprint.
+From PS Require Gen.Misc.
 Open Scope string_scope.
 
 (* no function of the command modules writes an attribute of a class object, a module global, or a dictionary /
@@ -90,3 +91,7 @@ Section Sched.
     - destruct (Nat.eqb_spec j i) as [->|Hne]; [congruence|]. now apply IH.
   Qed.
 End Sched.
+
+(* the base class all commands share is exactly the modelled text and carries no state of its own (see C01) *)
+Theorem C09_command_base_is_the_modelled_text : Gen.Misc.command_base_unknown = [].
+Proof. vm_compute. reflexivity. Qed.
